@@ -26,7 +26,8 @@ LEVEL_TEXT = ("Every integer code in -33100..-31900 and -200..200 (exhaustive) p
               ' Also one server text under a sequence of codes whose built-in hashes collide (-1/-2, n and n +- (2**61-1)), in one process.'
               ' Also a write stream that is not ready when the request is handed over (a rendezvous completed late, a full buffer), and code histories whose texts collide in a memo key.'
               ' Also error data nested 300 and 600 levels.'
-              ' Also plans of ten requests one after the other on one connection, answers of every class (and -32000) in between.')
+              ' Also plans of ten requests one after the other on one connection, answers of every class (and -32000) in between.'
+              ' Also error responses whose message is the empty string.')
 LEVEL_NOTE = ("Trusted: the pinned set {-32700,-32600,-32601,-32602,-32003,-32005,-32006,-32007,-32008,-32000} "
               "copied from the documentation in errors.py; codes outside the explored ranges are sampled only.")
 RULE = ("case = (code, error shape, message representation) or (helper, code). Non-trivial: every case delivers an "
